@@ -38,7 +38,7 @@ class K:
         return i
 
     def bad_neg(self, data):
-        return data[:-4]
+        return data[-1] + len(data[1:-2])
 
     def bad_call(self, data):
         return foo(data)
